@@ -380,17 +380,19 @@ func (c *Ctx) meltDecisionTable(r1 string, full bool) {
 			}
 		}
 		// --- completeness on the success and failure edges
-		edgesOf := func(cd *Cond) map[Edge]bool {
+		// (the outcome edges sit in the operation or in a helper of it that is new on this tree - the part of
+		// the operation that talks to the backend moved into its own function; each is examined in place)
+		ctxs := c.OpContexts(op)
+		edgesOfIn := func(og *Origins, cd *Cond) map[Edge]bool {
 			out := map[Edge]bool{}
-			for _, e := range o.AllEdges() {
-				if f := o.EdgeFact(e); f != nil && cd.Match(f, o) {
+			for _, e := range og.AllEdges() {
+				if f := og.EdgeFact(e); f != nil && cd.Match(f, og) {
 					out[e] = true
 				}
 			}
 			return out
 		}
-		succEdges := edgesOf(&Cond{Name: "succ", Match: func(f *Fact, o2 *Origins) bool { return ln.paySucceeded.Match(f, o2) || ln.lookSucceeded.Match(f, o2) }})
-		failEdges := edgesOf(ln.definitiveFail)
+		succCond := &Cond{Name: "succ", Match: func(f *Fact, o2 *Origins) bool { return ln.paySucceeded.Match(f, o2) || ln.lookSucceeded.Match(f, o2) }}
 		setPaid := c.condErrNilRole("quote set PAID", roleSetMelt, map[int]func(*Ex) bool{1 + pState: func(e *Ex) bool { return isConst(e, paid) }})
 		setUnpaid := c.condErrNilRole("quote set UNPAID", roleSetMelt, map[int]func(*Ex) bool{1 + pState: func(e *Ex) bool { return isConst(e, unpaid) }})
 		spentSame := markSpentCond
@@ -398,21 +400,34 @@ func (c *Ctx) meltDecisionTable(r1 string, full bool) {
 			spentSame = c.condErrNilRole("the request's inputs marked spent", roleMarkSpent, map[int]func(*Ex) bool{1: func(e *Ex) bool { return exprIs(e, inputs) }})
 		}
 		for _, t := range []struct {
-			edges map[Edge]bool
-			cd    *Cond
-			what  string
+			outcome *Cond
+			cd      *Cond
+			what    string
 		}{
-			{succEdges, unlockCond, "success => inputs unlocked"},
-			{succEdges, spentSame, "success => inputs marked spent"},
-			{succEdges, setPaid, "success => quote PAID"},
-			{failEdges, setUnpaid, "definitive failure => quote UNPAID"},
-			{failEdges, unlockCond, "definitive failure => inputs unlocked"},
+			{succCond, unlockCond, "success => inputs unlocked"},
+			{succCond, spentSame, "success => inputs marked spent"},
+			{succCond, setPaid, "success => quote PAID"},
+			{ln.definitiveFail, setUnpaid, "definitive failure => quote UNPAID"},
+			{ln.definitiveFail, unlockCond, "definitive failure => inputs unlocked"},
 		} {
-			if len(t.edges) == 0 {
+			found := false
+			ok, why, n := true, "", 0
+			for _, og := range ctxs {
+				edges := edgesOfIn(og, t.outcome)
+				if len(edges) == 0 {
+					continue
+				}
+				found = true
+				ok1, why1, n1 := c.afterEdges(og, edges, t.cd)
+				n += n1
+				if !ok1 {
+					ok, why = false, why1
+				}
+			}
+			if !found {
 				R.Check(r1, fk, t.what, c.P.Pos(op.Pos()), false, opInfo.name+": "+t.what, "no edge with that Lightning outcome found")
 				continue
 			}
-			ok, why, n := c.afterEdges(o, t.edges, t.cd)
 			if n == 0 {
 				ok, why = false, "no success return reachable after the outcome edges"
 			}
@@ -443,10 +458,16 @@ func (c *Ctx) meltDecisionTable(r1 string, full bool) {
 }
 
 // c05StatusReads: R2.
-func (c *Ctx) c05StatusReads(op *ssa.Function, ln *lnFacts) {
+func (c *Ctx) c05StatusReads(top *ssa.Function, ln *lnFacts) {
+	for _, og := range c.OpContexts(top) {
+		c.c05StatusReadsIn(top, og, ln)
+	}
+}
+
+func (c *Ctx) c05StatusReadsIn(top *ssa.Function, o *Origins, ln *lnFacts) {
 	R := c.R
-	o := c.P.OriginsOf(op)
-	fk := c.P.FuncKey(op)
+	op := o.Fn
+	fk := c.P.FuncKey(top)
 	for _, b := range op.Blocks {
 		if len(b.Instrs) == 0 {
 			continue
